@@ -605,7 +605,7 @@ func cmdCheck(args []string) int {
 	}
 	os.MkdirAll(filepath.Join(outRoot, "evidence"), 0o755)
 	b, _ := json.MarshalIndent(ev, "", " ")
-	if !*noEvidence && *only == "" && *caseFilter == "" {
+	if !*noEvidence && ((*only == "" && *caseFilter == "") || os.Getenv("VF_FORCE_EVIDENCE") != "") {
 		// partial runs (one harness, one case, a replay) never overwrite the property's evidence
 		os.WriteFile(filepath.Join(outRoot, "evidence", prop+".json"), b, 0o644)
 	}
